@@ -203,3 +203,23 @@ Theorem C03_source_tie_radii : forall lat (el : ellipsoid (T:=R)),
   src_transversalRadius ROps lat (el_a el) (el_e el) = transversalRadius ROps el lat.
 Proof. intros lat el. split; [apply tie_meridionalRadius|apply tie_transversalRadius]. Qed.
 Print Assumptions C03_source_tie_toLambert.
+
+(* the INVERSE map, loop included, and the constructor arithmetic: computeLatitude (for(;;) … break), toWGS84 and both
+   computeProjectionParameters overloads regenerated from the clang AST are the model functions, for every fuel *)
+From Romea Require Import SrcTieLoops.
+Theorem C03_source_tie_inverse : forall fuel (pr : projection (T:=R)) e (v : vec2 (T:=R)) L,
+  src_computeLatitude ROps fuel L e = computeLatitude ROps fuel L e /\
+  src_lambertToWGS84 ROps fuel (v2x v) (p_xs pr) (v2y v) (p_ys pr) (p_c pr) (p_n pr) e (p_lon0 pr)
+  = match toWGS84 ROps fuel pr e v with None => None | Some w => Some (w_lat w, w_lon w) end.
+Proof. intros fuel pr e v L. exact (conj (tie_computeLatitude fuel L e) (tie_lambertToWGS84 fuel pr e v)). Qed.
+Print Assumptions C03_source_tie_inverse.
+
+Theorem C03_source_tie_projection_parameters : forall (el : ellipsoid (T:=R)),
+  (forall p : secant_params (T:=R),
+     src_secantProjection ROps (sp_lat1 p) (el_a el) (el_e el) (sp_lat2 p) (sp_lat0 p) (sp_y0 p) (sp_lon0 p) (sp_x0 p)
+     = (let q := secant_projection ROps p el in (p_lon0 q, p_n q, p_c q, p_xs q, p_ys q))) /\
+  (forall p : tangent_params (T:=R),
+     src_tangentProjection ROps (tp_lat0 p) (el_a el) (el_e el) (tp_k0 p) (tp_y0 p) (tp_lon0 p) (tp_x0 p)
+     = (let q := tangent_projection ROps p el in (p_lon0 q, p_n q, p_c q, p_xs q, p_ys q))).
+Proof. intros el. exact (conj (fun p => tie_secantProjection p el) (fun p => tie_tangentProjection p el)). Qed.
+Print Assumptions C03_source_tie_projection_parameters.
